@@ -12,18 +12,27 @@ CHECKS = {
  "C01": ("model-based testing: proptest-generated call histories with state-aware argument resolution, lock-step against a reference tree filesystem; greedy op-deletion shrinking",
          "Random histories (up to 40/80-200 calls; every trait method, builders, handles; 8 path spellings) are executed on Memfs and on a reference model written from the trait docs; every result and the full dump-derived tree are compared after every step, failed single-target calls must leave the raw state untouched.",
          "reference model harness/src/fsmodel.rs (rules + admitted sets: DESIGN.md appendix A); hook H2 dump; paths through intermediate links excluded", "4 C01"),
+ "C02": ("differential testing: bounded-exhaustive (tree x call) pairs and proptest histories executed on Memfs and on Stdfs (tmpfs sandbox), observed by an independent std::fs walker",
+         "Every in-domain tree of a two-level namespace is mirrored under the same absolute prefix in Memfs and - from the Memfs dump, with std::fs only - on tmpfs (observers must agree first); every single-path call form on 10 paths and every two-path form on all ordered pairs, plus random histories: same Ok/Err, same values, same tree (names, kinds, bytes, link targets, permission bits; default owners renamed).",
+         "kernel/tmpfs semantics; euid 0 only and the inherited umask 022; error kinds are not compared across backends; two signed known findings (Entry::mode of links)", "4 C02"),
  "C03": ("stateful property-based testing: unrestricted generated histories with an 8-clause structural invariant over the raw Memfs dump after every step",
          "Histories with wild arguments (through links, root, empty, long '..' chains, huge names, nested src/dst, all builder options, failing calls) and after every step the raw indexes must form a well-formed tree and agree with the public API view.",
          "hook H2 dump is faithful; invariant list in harness/src/fsapply.rs::integrity", "4 C03"),
  "C04": ("controlled-scheduler schedule enumeration (generated programs x all interleavings at lock-section granularity) with a linearizability oracle; plus uncontrolled stress",
          "Real threads are serialised at every MemfsGuard acquisition (hook H1); for each small program every interleaving is enumerated depth-first and each execution's results and final tree must equal some program-order and real-time respecting sequential execution; nested acquisition, panics, non-returning calls, lost appends and integrity at quiescence are checked on every execution.",
          "hook H1 reports every guard acquisition; all shared Memfs state is behind that lock; sequential specification = Memfs single-threaded", "4 C04"),
+ "C05": ("bounded-exhaustive string enumeration + seeded random strings vs a reference abs(); generated environments in child processes; metamorphic spelling-independence test on both backends",
+         "abs() on every string over a 7-symbol alphabet up to length 5/6 x 4 cwds against a reference (trim protocol, expand, Go-Clean, lexical join), idempotence, form, independence from filesystem content, Stdfs==Memfs for the process cwd and in child processes with generated HOME/variables/cwds, HOME changing within the process; and for every call form x path x 14 spellings: the call with the respelled path and the call with abs(path) on two fresh replicas give the same result and tree (Memfs and tmpfs Stdfs).",
+         "ref_abs/ref_expand/ref_clean (harness/src/refpath.rs); 'no IO' checked behaviourally only", "4 C05"),
  "C06": ("model-based testing: proptest-generated file-operation histories on both backends vs a byte-vector model, every file read back after every step",
          "Histories over six files in two directories (write/append/line helpers/handles/copy/move/remove, adversarial byte data up to 16 KiB) on Memfs and on a tmpfs Stdfs sandbox; after every step every path is read three ways (and via std::fs::read on disk) and compared with the model.",
          "byte-vector model in harness/src/props/c06.rs; std::fs as independent observer; admitted set for empty-line helpers", "4 C06"),
  "C07": ("differential property-based testing: generated read/seek scripts vs std::io::Cursor in lock step; generated chunk/flush/drop schedules with read-back",
          "Read handles from both backends are driven by generated scripts (extreme offsets included) in lock step with std::io::Cursor: same result and same position after every call; write/append handles with arbitrary chunking, flush points and drop point must make exactly the bytes written so far visible at each flush and at drop.",
          "std::io::Cursor as reference; kernel limits on file offsets (>2^62 excluded on Stdfs)", "4 C07"),
+ "C08": ("property-based testing: proptest-generated and hand-made trees x the full cross-product of traversal options vs a reference traversal; listing helpers vs the reference model; both backends",
+         "For each tree all 4800 option sets (depth windows in both call orders, dirs/files/custom filter, follow, five orderings, contents_first, descriptor cap 1/2/default via hook H3) from two roots on Memfs and for a part on a tmpfs Stdfs copy: multiset of yielded (path, alt, kind) incl. LinkLooping items, exact order when sorted, parent/contents order otherwise, termination bound; paths/dirs/files/all_* on every path vs the model and vs exists/is_dir/is_file.",
+         "reference traversal in harness/src/props/c08.rs; equal-name sibling ties, link->link under follow and min>max windows are excluded (counted)", "4 C08"),
  "C09": ("bounded-exhaustive enumeration of trees x (src,dst) pairs x option sets with postcondition predicates over before/after dumps",
          "All 3025 trees of a two-level namespace (files, dirs, links incl. dangling, varied modes/owners) x all 144 ordered pairs of 12 argument paths x {copy, chmod_all, chmod_dirs, chmod_files, follow, move_p} on Memfs (quick: a seeded third of the trees); postconditions on the dumps before/after: source untouched, every source entry copied faithfully, modes of new entries, existing entries kept, no collateral change, move relocates exactly, failed move changes nothing, C03 invariants.",
          "hook H2 dump; placement under follow with links in the source is only frame-checked; the Stdfs side of the same calls is C02's job", "4 C09"),
@@ -57,6 +66,9 @@ CHECKS = {
  "C19": ("bounded-exhaustive enumeration (lengths x index pairs, short strings, small defer programs) + seeded random (proptest) vs plain definitions",
          "slice/drop for all lengths 0..=8 x indices -10..=10 on three iterator sources, the simple adaptors, all short strings over a multi-byte alphabet, every small defer program (fallthrough/return/panic, nesting <=3) run with real defer guards under catch_unwind.",
          "Vec/str std semantics; the interpreter's own model of scope exit order", "4 C19"),
+ "C20": ("model-based testing of the macros: proptest-generated states x every macro x every path (and near-miss second arguments) under catch_unwind, vs reference predicates/postconditions; both backends",
+         "For every generated state each of the 19 macro forms is invoked on a freshly rebuilt state for every existing path, missing paths and the empty string (with matching / different / suffix-of-correct second arguments): checking macros panic iff the reference predicate is false and leave the state alone; acting macros never pass with a false postcondition nor fail with a true one; messages name the macro and the path. Memfs always, a part on a tmpfs Stdfs copy.",
+         "reference predicates in harness/src/props/c20.rs; no_dir!/no_file! on another kind and copyfile! into a directory are not asserted", "4 C20"),
 }
 
 def main():
